@@ -56,15 +56,15 @@ Section CallMain.
 End CallMain.
 
 Section CallThms.
-  Context {V : Type} (O : ops V) (limit : nat).
+  Context {V : Type} (O : ops V) (limit : nat) (none_v : V).
   Notation cparam := (@cparam V).
   Notation barg := (@barg V).
 
   Lemma pass2_nil : forall sol (b : list (cparam * barg)),
-    pass2 O sol b = [] <-> forall p ba, In (p, ba) b -> fits O sol (ann p) ba = true.
+    pass2 O none_v sol b = [] <-> forall p ba, In (p, ba) b -> fits O none_v sol (ann p) ba = true.
   Proof.
     intros sol b. unfold pass2. induction b as [|[p ba] b IH]; cbn; [split; [intros _ ? ? []|reflexivity]|].
-    destruct (fits O sol (ann p) ba) eqn:E; cbn.
+    destruct (fits O none_v sol (ann p) ba) eqn:E; cbn.
     - rewrite IH. split.
       + intros H q qa [Hq|Hq]; [injection Hq as <- <-; exact E|apply H, Hq].
       + intros H q qa Hq. apply H. right. exact Hq.
@@ -72,24 +72,24 @@ Section CallThms.
   Qed.
 
   Lemma pass2_in : forall sol (b : list (cparam * barg)) d,
-    In d (pass2 O sol b) <->
-    exists p ba, In (p, ba) b /\ d = IncompatibleArgument (pname (cp p)) /\ fits O sol (ann p) ba = false.
+    In d (pass2 O none_v sol b) <->
+    exists p ba, In (p, ba) b /\ d = IncompatibleArgument (pname (cp p)) /\ fits O none_v sol (ann p) ba = false.
   Proof.
     intros sol b d. unfold pass2. rewrite in_flat_map. split.
-    - intros [[p ba] [Hin H]]. destruct (fits O sol (ann p) ba) eqn:E; [destruct H|].
+    - intros [[p ba] [Hin H]]. destruct (fits O none_v sol (ann p) ba) eqn:E; [destruct H|].
       destruct H as [<-|[]]. exists p, ba. auto.
     - intros [p [ba [Hin [-> E]]]]. exists (p, ba). split; [exact Hin|]. rewrite E. left. reflexivity.
   Qed.
 
   (* shape of an accepted call *)
   Theorem check_call_accepted_iff : forall s c,
-    fst (check_call O limit s c) = [] <->
-    exists b l, cbind s c = Some b /\ pass1 O limit s b = inr l /\ resolve_ok O limit l = true /\
-      forall p ba, In (p, ba) b -> fits O (sol_of O limit l) (ann p) ba = true.
+    fst (check_call O limit none_v s c) = [] <->
+    exists b l, cbind s c = Some b /\ pass1 O limit none_v s b = inr l /\ resolve_ok O limit l = true /\
+      forall p ba, In (p, ba) b -> fits O none_v (sol_of O limit l) (ann p) ba = true.
   Proof.
     intros s c. unfold check_call. destruct (cbind s c) as [b|]; cbn.
     2:{ split; [intros HH; discriminate HH|]. intros [b [l [H _]]]. discriminate H. }
-    destruct (pass1 O limit s b) as [n|l] eqn:Ep; cbn.
+    destruct (pass1 O limit none_v s b) as [n|l] eqn:Ep; cbn.
     { split; [intros HH; discriminate HH|]. intros [b' [l [H1 [H2 _]]]]. injection H1 as <-. congruence. }
     destruct (resolve_ok O limit l) eqn:Er; cbn.
     - rewrite pass2_nil. split.
@@ -103,12 +103,12 @@ Section CallThms.
      bound argument value fits the substituted annotation, and the inferred type is the
      substituted return annotation — otherwise an error is reported *)
   Theorem accepted_call_arguments_fit : forall s c,
-    diagnosed O limit s c = false ->
-    exists b sol, cbind s c = Some b /\ snd (check_call O limit s c) = inferred O sol (cret s) /\
-      forall p vs x, In (p, BVals vs) b -> In x vs -> fits1 O sol (ann p) x = true.
+    diagnosed O limit none_v s c = false ->
+    exists b sol, cbind s c = Some b /\ snd (check_call O limit none_v s c) = inferred O sol (cret s) /\
+      forall p vs x, In (p, BVals vs) b -> In x vs -> fits1 O none_v sol (ann p) x = true.
   Proof.
     intros s c Hd. unfold diagnosed in Hd.
-    destruct (fst (check_call O limit s c)) eqn:E; [|discriminate].
+    destruct (fst (check_call O limit none_v s c)) eqn:E; [|discriminate].
     apply check_call_accepted_iff in E. destruct E as [b [l [Hb [H1 [Hr Hfit]]]]].
     exists b, (sol_of O limit l). split; [exact Hb|]. split.
     - unfold check_call. rewrite Hb, H1, Hr. reflexivity.
@@ -120,7 +120,7 @@ Section CallThms.
      callback's parameter type (an UPPER bound of T_k) accepts the value chosen for T_k,
      and the callback's result is accepted by the value chosen for its result variable *)
   Theorem accepted_call_respects_callback_bounds : forall s c,
-    diagnosed O limit s c = false ->
+    diagnosed O limit none_v s c = false ->
     exists b sol, cbind s c = Some b /\
       forall p vs k r pv qv, In (p, BVals vs) b -> ann p = AnnFun k r -> In (AFun pv qv) vs ->
         acc O pv (sol k) = true /\ (forall j, r = RVar j -> acc O (sol j) qv = true).
@@ -134,15 +134,31 @@ Section CallThms.
 
   (* ---- signatures without type variables ---- *)
   Lemma no_tv_pass1 : forall s (b : list (cparam * barg)),
-    forallb (fun p => negb (has_tv (ann p))) (map fst b) = true -> pass1 O limit s b = inr [].
+    forallb (fun p => negb (has_tv (ann p))) (map fst b) = true -> pass1 O limit none_v s b = inr [].
   Proof.
     intros s b. induction b as [|[p ba] b IH]; cbn; [reflexivity|]. intros H.
     apply andb_prop in H. destruct H as [H1 H2]. destruct (has_tv (ann p)); [discriminate|].
     rewrite (IH H2). reflexivity.
   Qed.
 
-  Lemma fits1_no_tv : forall sol sol' (a : @annot V) x, has_tv a = false -> fits1 O sol a x = fits1 O sol' a x.
-  Proof. intros sol sol' [|t|k|k|k j|k r] x H; try discriminate; reflexivity. Qed.
+  Lemma fits_e_no_tv : forall sol sol' (e : @texp V) x, tv_in e = false -> fits_e O none_v sol e x = fits_e O none_v sol' e x.
+  Proof.
+    intros sol sol' e. induction e as [t|k|e1 IH|ek IHk ev IHv|e1 IH|ea IHa eb IHb|e1 IH]; intros x H; cbn in H.
+    - destruct x; reflexivity.
+    - discriminate.
+    - destruct x; try reflexivity. cbn. apply IH, H.
+    - apply orb_false_elim in H. destruct H as [H1 H2]. destruct x; try reflexivity. cbn.
+      rewrite (IHk _ H1), (IHv _ H2). reflexivity.
+    - destruct x; try reflexivity. cbn. apply IH, H.
+    - apply orb_false_elim in H. destruct H as [H1 H2]. destruct x; try reflexivity. cbn.
+      rewrite (IHa _ H1), (IHb _ H2). reflexivity.
+    - destruct x; cbn; rewrite ?(IH _ H); try reflexivity.
+  Qed.
+
+  Lemma fits1_no_tv : forall sol sol' (a : @annot V) x, has_tv a = false -> fits1 O none_v sol a x = fits1 O none_v sol' a x.
+  Proof.
+    intros sol sol' [|e|k r] x H; try discriminate; [reflexivity|]. cbn. apply fits_e_no_tv, H.
+  Qed.
 
   Lemma cbind_params : forall (s : @csig V) c b p ba, cbind s c = Some b -> In (p, ba) b -> In p (cparams s).
   Proof.
@@ -155,9 +171,9 @@ Section CallThms.
      one incompatible_argument per parameter with an argument its annotation does not accept *)
   Theorem nongeneric_diagnostics : forall s c b,
     no_tv s = true -> cbind s c = Some b ->
-    forall d, In d (fst (check_call O limit s c)) <->
+    forall d, In d (fst (check_call O limit none_v s c)) <->
       exists p vs x, In (p, BVals vs) b /\ d = IncompatibleArgument (pname (cp p)) /\
-        In x vs /\ fits1 O (fun _ => any_generic O) (ann p) x = false.
+        In x vs /\ fits1 O none_v (fun _ => any_generic O) (ann p) x = false.
   Proof.
     intros s c b Hnv Hb d.
     assert (Hall : forallb (fun p => negb (has_tv (ann p))) (map fst b) = true).
@@ -166,16 +182,16 @@ Section CallThms.
     unfold check_call. rewrite Hb, (no_tv_pass1 s b Hall). cbn. rewrite pass2_in. split.
     - intros [p [ba [Hin [-> Hf]]]]. destruct ba as [vs|dd]; [|discriminate].
       cbn in Hf.
-      assert (Hex : existsb (fun x => negb (fits1 O (sol_of O limit []) (ann p) x)) vs = true).
+      assert (Hex : existsb (fun x => negb (fits1 O none_v (sol_of O limit []) (ann p) x)) vs = true).
       { clear -Hf. induction vs as [|x l IH]; cbn in *; [discriminate|].
-        destruct (fits1 O (sol_of O limit []) (ann p) x); cbn in *; [apply IH, Hf|reflexivity]. }
+        destruct (fits1 O none_v (sol_of O limit []) (ann p) x); cbn in *; [apply IH, Hf|reflexivity]. }
       apply existsb_exists in Hex. destruct Hex as [x [Hx Hn]].
       exists p, vs, x. repeat split; auto.
       assert (Hp : has_tv (ann p) = false).
       { rewrite forallb_forall in Hall. specialize (Hall p). destruct (has_tv (ann p)); [|reflexivity].
         assert (negb true = true); [|discriminate]. apply Hall. apply in_map_iff. exists (p, BVals vs). auto. }
       rewrite (fits1_no_tv _ (sol_of O limit []) _ _ Hp).
-      destruct (fits1 O (sol_of O limit []) (ann p) x); [discriminate|reflexivity].
+      destruct (fits1 O none_v (sol_of O limit []) (ann p) x); [discriminate|reflexivity].
     - intros [p [vs [x [Hin [-> [Hx Hf]]]]]]. exists p, (BVals vs). repeat split; auto.
       cbn. apply not_true_is_false. intros Hallf. rewrite forallb_forall in Hallf.
       assert (Hp : has_tv (ann p) = false).
@@ -190,44 +206,52 @@ Section CallThms.
   Definition literal_args (b : list (cparam * barg)) : Prop :=
     forall p vs x, In (p, BVals vs) b -> In x vs -> exists o, x = AV (val o).
 
-  Theorem nongeneric_diagnosed_iff_nonmember_on : forall s c b,
-    no_tv s = true -> cbind s c = Some b -> literal_args b ->
-    (* acceptance = membership is only needed on the (declared type, literal) pairs of this call *)
-    (forall p vs t o, In (p, BVals vs) b -> ann p = AnnTy t -> In (AV (val o)) vs ->
-        acc O t (val o) = member o t) ->
-    (diagnosed O limit s c = true <->
-     exists p vs t o, In (p, BVals vs) b /\ ann p = AnnTy t /\ In (AV (val o)) vs /\ member o t = false).
+  (* flat signatures: every parameter unannotated or annotated with a closed type of the fragment *)
+  Definition flat_ann (a : @annot V) : bool :=
+    match a with AnnNone => true | AnnE (TTy _) => true | _ => false end.
+  Definition flat_sig (s : @csig V) : bool := forallb (fun p => flat_ann (ann p)) (cparams s).
+
+  Lemma flat_no_tv : forall s, flat_sig s = true -> no_tv s = true.
   Proof.
-    intros s c b Hnv Hb Hlit Ham. unfold diagnosed. split.
-    - destruct (fst (check_call O limit s c)) as [|d l] eqn:E; [discriminate|]. intros _.
-      assert (Hd : In d (fst (check_call O limit s c))) by (rewrite E; left; reflexivity).
+    intros s H. unfold flat_sig, no_tv in *. rewrite forallb_forall in *. intros p Hp.
+    specialize (H p Hp). destruct (ann p) as [|[t|k|e|ek ev|e|ea eb|e]|k r]; cbn in *; try discriminate; reflexivity.
+  Qed.
+
+  Theorem nongeneric_diagnosed_iff_nonmember_on : forall s c b,
+    flat_sig s = true -> cbind s c = Some b -> literal_args b ->
+    (* acceptance = membership is only needed on the (declared type, literal) pairs of this call *)
+    (forall p vs t o, In (p, BVals vs) b -> ann p = AnnE (TTy t) -> In (AV (val o)) vs ->
+        acc O t (val o) = member o t) ->
+    (diagnosed O limit none_v s c = true <->
+     exists p vs t o, In (p, BVals vs) b /\ ann p = AnnE (TTy t) /\ In (AV (val o)) vs /\ member o t = false).
+  Proof.
+    intros s c b Hfl Hb Hlit Ham. pose proof (flat_no_tv s Hfl) as Hnv. unfold diagnosed. split.
+    - destruct (fst (check_call O limit none_v s c)) as [|d l] eqn:E; [discriminate|]. intros _.
+      assert (Hd : In d (fst (check_call O limit none_v s c))) by (rewrite E; left; reflexivity).
       apply (nongeneric_diagnostics s c b Hnv Hb) in Hd.
       destruct Hd as [p [vs [x [Hin [_ [Hx Hf]]]]]].
       destruct (Hlit p vs x Hin Hx) as [o ->].
-      assert (Hp : has_tv (ann p) = false).
-      { unfold no_tv in Hnv. rewrite forallb_forall in Hnv. specialize (Hnv p (cbind_params s c b p _ Hb Hin)).
-        destruct (has_tv (ann p)); [discriminate|reflexivity]. }
-      destruct (ann p) as [|t|k|k|k j|k r] eqn:Ea; cbn in Hf, Hp; try discriminate.
+      assert (Hp : flat_ann (ann p) = true).
+      { unfold flat_sig in Hfl. rewrite forallb_forall in Hfl. apply Hfl. eapply cbind_params; eassumption. }
+      destruct (ann p) as [|[t|k|e|ek ev|e|ea eb|e]|k r] eqn:Ea; cbn in Hf, Hp; try discriminate.
       exists p, vs, t, o. rewrite <- (Ham p vs t o Hin Ea Hx). auto.
     - intros [p [vs [t [o [Hin [Ea [Hx Hm]]]]]]].
-      assert (Hd : In (IncompatibleArgument (pname (cp p))) (fst (check_call O limit s c))).
+      assert (Hd : In (IncompatibleArgument (pname (cp p))) (fst (check_call O limit none_v s c))).
       { apply (nongeneric_diagnostics s c b Hnv Hb). exists p, vs, (AV (val o)). repeat split; auto.
         rewrite Ea. cbn. rewrite (Ham p vs t o Hin Ea Hx). exact Hm. }
-      destruct (fst (check_call O limit s c)); [destruct Hd|reflexivity].
+      destruct (fst (check_call O limit none_v s c)); [destruct Hd|reflexivity].
   Qed.
 
   Hypothesis acc_member : forall t o, acc O t (val o) = member o t.
 
   Theorem nongeneric_diagnosed_iff_nonmember : forall s c b,
-    no_tv s = true -> cbind s c = Some b -> literal_args b ->
-    (diagnosed O limit s c = true <->
-     exists p vs t o, In (p, BVals vs) b /\ ann p = AnnTy t /\ In (AV (val o)) vs /\ member o t = false).
+    flat_sig s = true -> cbind s c = Some b -> literal_args b ->
+    (diagnosed O limit none_v s c = true <->
+     exists p vs t o, In (p, BVals vs) b /\ ann p = AnnE (TTy t) /\ In (AV (val o)) vs /\ member o t = false).
   Proof.
     intros s c b Hnv Hb Hlit. apply nongeneric_diagnosed_iff_nonmember_on; auto.
   Qed.
 
-  (* ---- with C15: a positional / keyword argument passed for a parameter annotated T_k is
-     always accepted by the value chosen for T_k (the second pass never reports it) ---- *)
   Hypothesis L : acc_laws O.
 
   Lemma both_some : forall {A} (x y : option (list A)) l, both x y = Some l ->
@@ -235,13 +259,13 @@ Section CallThms.
   Proof. intros A [a|] [b|] l H; cbn in H; try discriminate. injection H as <-. eauto. Qed.
 
   Lemma pass1_incl : forall s (b : list (cparam * barg)) l p vs,
-    pass1 O limit s b = inr l -> In (p, BVals vs) b -> has_tv (ann p) = true ->
-    exists l0, gen_bounds O limit s (ann p) vs = Some l0 /\ incl l0 l.
+    pass1 O limit none_v s b = inr l -> In (p, BVals vs) b -> has_tv (ann p) = true ->
+    exists l0, gen_bounds O limit none_v s (ann p) vs = Some l0 /\ incl l0 l.
   Proof.
     intros s b. induction b as [|[q qa] b IH]; intros l p vs H Hin Htv; [destruct Hin|].
     cbn in H.
     destruct (if has_tv (ann q) then _ else Some []) as [here|] eqn:Eh; [|discriminate].
-    destruct (pass1 O limit s b) as [n|l'] eqn:Ep; [discriminate|]. injection H as <-.
+    destruct (pass1 O limit none_v s b) as [n|l'] eqn:Ep; [discriminate|]. injection H as <-.
     destruct Hin as [Hq|Hin].
     - injection Hq as -> ->. rewrite Htv in Eh. exists here. split; [exact Eh|].
       intros z Hz. apply in_or_app. left. exact Hz.
@@ -253,29 +277,6 @@ Section CallThms.
   Proof.
     intros k b l H. unfold bounds_for. apply in_flat_map. exists (k, b). split; [exact H|].
     rewrite Nat.eqb_refl. left. reflexivity.
-  Qed.
-
-  Theorem typevar_argument_accepted_by_solution : forall s (b : list (cparam * barg)) l p k v,
-    pass1 O limit s b = inr l -> resolve_ok O limit l = true ->
-    In (p, BVals [AV v]) b -> ann p = AnnVar k ->
-    acc O (sol_of O limit l k) v = true.
-  Proof.
-    intros s b l p k v Hp Hr Hin Ea.
-    destruct (pass1_incl s b l p [AV v] Hp Hin) as [l0 [Hg Hi]]; [rewrite Ea; reflexivity|].
-    rewrite Ea in Hg. cbn in Hg. unfold lower_gen in Hg.
-    destruct (is_err (mresolve O limit (arg_bounds (decl_of s k) v))); [discriminate|].
-    injection Hg as <-.
-    assert (Hk : In (k, LowerBound v) l) by (apply Hi; left; reflexivity).
-    pose proof (bounds_for_in k _ l Hk) as Hb.
-    unfold sol_of, solved. destruct (bounds_for k l) as [|b0 bs] eqn:Eb; [destruct Hb|].
-    rewrite <- Eb in *.
-    assert (Hok : is_err (solved O limit l k) = false).
-    { unfold resolve_ok in Hr. rewrite forallb_forall in Hr. specialize (Hr k).
-      destruct (is_err (solved O limit l k)); [|reflexivity].
-      assert (negb true = true); [|discriminate]. apply Hr. unfold tvs. apply in_map_iff. exists (k, LowerBound v). auto. }
-    unfold solved in Hok. rewrite Eb in Hok. rewrite <- Eb in Hok.
-    destruct (mresolve O limit (bounds_for k l)) as [w|] eqn:Em; [|discriminate].
-    eapply mresolve_lower; [exact L|exact Em|exact Hb].
   Qed.
 
   (* any lower bound that reached the solver is accepted by the value chosen *)
@@ -301,47 +302,79 @@ Section CallThms.
     injection H as <-. left. reflexivity.
   Qed.
 
-  (* the same through the generic forms: the element type of a list[T_k] argument, the key and
-     value types of a dict[T_k, T_j] argument and the result type of a Callable[.., T_j] argument
-     are accepted by the values chosen — so the second pass can only fail on concretely typed
-     parameters and on a callback's parameter type (the upper-bound position) *)
-  Theorem generic_lower_positions_accepted : forall s (b : list (cparam * barg)) l p,
-    pass1 O limit s b = inr l -> resolve_ok O limit l = true ->
-    (forall k e, In (p, BVals [AList e]) b -> ann p = AnnList k -> acc O (sol_of O limit l k) e = true) /\
-    (forall k j kk vv, In (p, BVals [ADict kk vv]) b -> ann p = AnnDict k j ->
-        acc O (sol_of O limit l k) kk = true /\ acc O (sol_of O limit l j) vv = true) /\
-    (forall k j pv qv, In (p, BVals [AFun pv qv]) b -> ann p = AnnFun k (RVar j) ->
-        acc O (sol_of O limit l j) qv = true).
+  (* By induction on the type expression, to any nesting depth: once `e.can_assign(x)` produced
+     bounds that reached the solver and the solver succeeded, x fits e under the values chosen.
+     (with C15: the value chosen accepts every lower bound) *)
+  Theorem gen_e_fits : forall s l (e : @texp V) x l0,
+    resolve_ok O limit l = true -> gen_e O limit none_v s e x = Some l0 -> incl l0 l ->
+    fits_e O none_v (sol_of O limit l) e x = true.
   Proof.
-    intros s b l p Hp Hr. repeat split.
-    - intros k e Hin Ea.
-      destruct (pass1_incl s b l p [AList e] Hp Hin) as [l0 [Hg Hi]]; [rewrite Ea; reflexivity|].
-      rewrite Ea in Hg. cbn in Hg. apply both_some in Hg. destruct Hg as [a [c [Ha [_ ->]]]].
-      apply tagged_lower_accepted; [exact Hr|]. apply Hi, in_or_app. left. eapply lower_gen_in, Ha.
-    - destruct (pass1_incl s b l p [ADict kk vv] Hp H) as [l0 [Hg Hi]]; [rewrite H0; reflexivity|].
-      rewrite H0 in Hg. cbn in Hg. apply both_some in Hg. destruct Hg as [a [c [Ha [_ ->]]]].
-      apply both_some in Ha. destruct Ha as [a1 [a2 [H1 [H2 ->]]]].
-      apply tagged_lower_accepted; [exact Hr|]. apply Hi, in_or_app. left. apply in_or_app. left.
-      eapply lower_gen_in, H1.
-    - destruct (pass1_incl s b l p [ADict kk vv] Hp H) as [l0 [Hg Hi]]; [rewrite H0; reflexivity|].
-      rewrite H0 in Hg. cbn in Hg. apply both_some in Hg. destruct Hg as [a [c [Ha [_ ->]]]].
-      apply both_some in Ha. destruct Ha as [a1 [a2 [H1 [H2 ->]]]].
-      apply tagged_lower_accepted; [exact Hr|]. apply Hi, in_or_app. left. apply in_or_app. right.
-      eapply lower_gen_in, H2.
-    - intros k j pv qv Hin Ea.
-      destruct (pass1_incl s b l p [AFun pv qv] Hp Hin) as [l0 [Hg Hi]]; [rewrite Ea; reflexivity|].
-      rewrite Ea in Hg. cbn in Hg. apply both_some in Hg. destruct Hg as [a [c [Ha [_ ->]]]].
-      apply both_some in Ha. destruct Ha as [a1 [a2 [H1 [H2 ->]]]].
-      apply tagged_lower_accepted; [exact Hr|]. apply Hi, in_or_app. left. apply in_or_app. right.
-      eapply lower_gen_in, H2.
+    intros s l e. induction e as [t|k|e1 IH|ek IHk ev IHv|e1 IH|ea IHa eb IHb|e1 IH]; intros x l0 Hr Hg Hi.
+    - destruct x; cbn in *; try discriminate. destruct (acc O t v); [reflexivity|discriminate].
+    - destruct x; cbn in *; try discriminate.
+      apply tagged_lower_accepted; [exact Hr|]. apply Hi. eapply lower_gen_in, Hg.
+    - destruct x; cbn in *; try discriminate. eapply IH; eassumption.
+    - destruct x; cbn in *; try discriminate. apply both_some in Hg. destruct Hg as [a [c [Ha [Hc ->]]]].
+      apply andb_true_intro. split.
+      + eapply IHk; [exact Hr|exact Ha|]. intros z Hz. apply Hi, in_or_app. left. exact Hz.
+      + eapply IHv; [exact Hr|exact Hc|]. intros z Hz. apply Hi, in_or_app. right. exact Hz.
+    - destruct x; cbn in *; try discriminate. eapply IH; eassumption.
+    - destruct x; cbn in *; try discriminate. apply both_some in Hg. destruct Hg as [a [c [Ha [Hc ->]]]].
+      apply andb_true_intro. split.
+      + eapply IHa; [exact Hr|exact Ha|]. intros z Hz. apply Hi, in_or_app. left. exact Hz.
+      + eapply IHb; [exact Hr|exact Hc|]. intros z Hz. apply Hi, in_or_app. right. exact Hz.
+    - destruct x; cbn in *; try (eapply IH; eassumption).
+      destruct (acc O none_v v); [reflexivity|]. cbn. eapply IH; eassumption.
+  Qed.
+
+  (* hence the second pass never reports an argument passed (positionally or by keyword) for a
+     parameter whose annotation mentions type variables but no callback: it can only fail on
+     concretely typed parameters and on a callback's parameter type (the upper-bound position) *)
+  Theorem non_callback_argument_fits_after_pass1 : forall s (b : list (cparam * barg)) l p e x,
+    pass1 O limit none_v s b = inr l -> resolve_ok O limit l = true ->
+    In (p, BVals [x]) b -> ann p = AnnE e -> tv_in e = true ->
+    fits_e O none_v (sol_of O limit l) e x = true.
+  Proof.
+    intros s b l p e x Hp Hr Hin Ea Htv.
+    destruct (pass1_incl s b l p [x] Hp Hin) as [l0 [Hg Hi]]; [rewrite Ea; exact Htv|].
+    rewrite Ea in Hg.
+    assert (Hgen : exists l1, gen_e O limit none_v s e x = Some l1 /\ incl l1 l).
+    { destruct e as [t|k|e1|ek ev|e1|ea eb|e1]; cbn in Hg;
+        try (apply both_some in Hg; destruct Hg as [a [c [Ha [_ ->]]]]; exists a; split; [exact Ha|];
+             intros z Hz; apply Hi, in_or_app; left; exact Hz).
+      destruct x; cbn in Hg; try discriminate. exists l0. split; [exact Hg|exact Hi]. }
+    destruct Hgen as [l1 [Hg1 Hi1]]. eapply gen_e_fits; eassumption.
+  Qed.
+
+  Theorem typevar_argument_accepted_by_solution : forall s (b : list (cparam * barg)) l p k v,
+    pass1 O limit none_v s b = inr l -> resolve_ok O limit l = true ->
+    In (p, BVals [AV v]) b -> ann p = AnnE (TVarE k) ->
+    acc O (sol_of O limit l k) v = true.
+  Proof.
+    intros s b l p k v Hp Hr Hin Ea.
+    exact (non_callback_argument_fits_after_pass1 s b l p (TVarE k) (AV v) Hp Hr Hin Ea eq_refl).
+  Qed.
+
+  (* the result type of a callback passed for Callable[.., T_j] is accepted by T_j's value *)
+  Theorem callback_result_accepted : forall s (b : list (cparam * barg)) l p k j pv qv,
+    pass1 O limit none_v s b = inr l -> resolve_ok O limit l = true ->
+    In (p, BVals [AFun pv qv]) b -> ann p = AnnFun k (RVar j) ->
+    acc O (sol_of O limit l j) qv = true.
+  Proof.
+    intros s b l p k j pv qv Hp Hr Hin Ea.
+    destruct (pass1_incl s b l p [AFun pv qv] Hp Hin) as [l0 [Hg Hi]]; [rewrite Ea; reflexivity|].
+    rewrite Ea in Hg. cbn in Hg. apply both_some in Hg. destruct Hg as [a [c [Ha [_ ->]]]].
+    apply both_some in Ha. destruct Ha as [a1 [a2 [H1 [H2 ->]]]].
+    apply tagged_lower_accepted; [exact Hr|]. apply Hi, in_or_app. left. apply in_or_app. right.
+    eapply lower_gen_in, H2.
   Qed.
 
   (* the inferred type of `-> T_k` contains every literal passed (positionally or by
      keyword) for a parameter annotated T_k *)
   Theorem identity_result_member : forall s c b p k o,
-    cret s = RVar k -> diagnosed O limit s c = false -> cbind s c = Some b ->
-    In (p, BVals [AV (val o)]) b -> ann p = AnnVar k ->
-    member o (snd (check_call O limit s c)) = true.
+    cret s = RVar k -> diagnosed O limit none_v s c = false -> cbind s c = Some b ->
+    In (p, BVals [AV (val o)]) b -> ann p = AnnE (TVarE k) ->
+    member o (snd (check_call O limit none_v s c)) = true.
   Proof.
     intros s c b p k o Hret Hd Hb Hin Ea.
     destruct (accepted_call_arguments_fit s c Hd) as [b' [sol [Hb' [Hsnd Hfit]]]].
